@@ -289,7 +289,15 @@ func (d *daemon) ServeHTTP(w http.ResponseWriter, r *http.Request) {
 		}
 		if c0 >= 0 && want != 0 && d.table[c0] == want {
 			key := arg(0)
-			eff = effect{apply: func() {}, body: fmt.Sprintf(`{"Keys":{%s:{"Type":%s}}}`, strconv.Quote(key), strconv.Quote(t))}
+			body := fmt.Sprintf(`{"Keys":{%s:{"Type":%s}}}`, strconv.Quote(key), strconv.Quote(t))
+			switch d.wire % 7 {
+			case 3: // another key next to the right one, unknown fields
+				body = fmt.Sprintf(`{"Keys":{%s:{"Type":"recursive"},%s:{"Type":%s,"Extra":1}},"More":null}`,
+					strconv.Quote(common.CidN(len(d.table)+5).String()), strconv.Quote(key), strconv.Quote(t))
+			case 5:
+				body = "\n " + body + "\n"
+			}
+			eff = effect{apply: func() {}, body: body}
 		} else {
 			eff = effect{refuse: fmt.Sprintf("path '%s' is not pinned", arg(0))}
 		}
@@ -561,7 +569,15 @@ func (d *daemon) ServeHTTP(w http.ResponseWriter, r *http.Request) {
 		w.Header().Set("X-Stream-Error", "pin: merkledag: not found")
 	case "b200":
 		w.WriteHeader(200)
-		fmt.Fprint(w, []string{"this is not json", "<html>ok</html>", "{\"Pins\":["}[wire%3])
+		bodies := []string{"this is not json", "<html>ok</html>", "{\"Pins\":["}
+		if isAdd {
+			bodies = append(bodies, "{\"Progress\":\"many\"}\n", "{\"Progress\":1}\n[1,2]\n", "{\"Pins\":7}")
+		} else if ep == "pin/ls" {
+			// well-formed JSON that does not list the CID
+			bodies = append(bodies, `{"Keys":{}}`, `{"Keys":{"`+common.CidN(len(d.table)+5).String()+`":{"Type":"recursive"}}}`,
+				`{"Keys":{"not-a-cid":{"Type":"recursive"}}}`, `{"Keys":[]}`)
+		}
+		fmt.Fprint(w, bodies[wire%len(bodies)])
 	}
 }
 
@@ -769,7 +785,86 @@ func genBeh(r *common.Rng, allowTiming bool) string {
 	}
 }
 
+// genFocused puts one arbitrary behaviour at a chosen step of the conversation and makes the
+// steps before it succeed, so that every behaviour meets every endpoint in every prior state.
+func genFocused(r *common.Rng) tcase {
+	var c tcase
+	c.table = []byte{"udri"[r.Intn(4)], "udri"[r.Intn(4)], "udri"[r.Intn(4)]}
+	c.cid, c.src = 0, -1
+	c.depth = []int{-1, 0, 1, 2}[r.Intn(4)]
+	c.modeRec = c.depth != 0
+	c.sw = "ok"
+	c.wire = r.Intn(60)
+	b := allBeh[r.Intn(len(allBeh))]
+	notAsAsked := func() {
+		asked := byte('r')
+		if c.depth == 0 {
+			asked = 'd'
+		}
+		for c.table[0] == asked {
+			c.table[0] = "udri"[r.Intn(4)]
+		}
+	}
+	switch shape := r.Intn(8); shape {
+	case 0: // pin/add without source
+		c.op = "pin"
+		notAsAsked()
+		c.script = []string{"ok", b, "ok"}
+	case 1: // pin/add after a source lookup that does not lead to pin/update
+		c.op = "pin"
+		notAsAsked()
+		c.src = 1
+		if r.Bool() {
+			c.table[1] = "udi"[r.Intn(3)]
+		} else {
+			c.modeRec = false
+		}
+		c.script = []string{"ok", "ok", b}
+	case 2: // pin/update
+		c.op = "pin"
+		if c.depth == 0 {
+			c.depth = -1
+		}
+		c.modeRec = true
+		notAsAsked()
+		c.src = 1
+		c.table[1] = 'r'
+		c.script = []string{"ok", "ok", b}
+	case 3:
+		c.op = "unpin"
+		c.script = []string{b, "ok", "ok"}
+	case 4:
+		c.op = "ls"
+		c.script = []string{b, "ok", "ok"}
+	case 5: // first lookup of Pin
+		c.op = "pin"
+		c.script = []string{b, "ok", "ok"}
+		if r.Bool() {
+			c.src = 1
+		}
+	case 6: // source lookup
+		c.op = "pin"
+		notAsAsked()
+		c.src = 1
+		if r.Bool() {
+			c.table[1] = 'r'
+		}
+		c.script = []string{"ok", b, "ok"}
+	default: // source is the CID itself
+		c.op = "pin"
+		c.src = 0
+		c.script = []string{genBeh(r, false), "ok", b}
+	}
+	if c.op == "pin" {
+		c.norig = []int{0, 0, 1, 10, 12}[r.Intn(5)]
+	}
+	return c
+}
+
 func gen(r *common.Rng, k, total int) tcase {
+	if k%4 == 1 {
+		return genFocused(r)
+	}
 	var c tcase
 	switch x := r.Intn(10); {
 	case x < 7:
